@@ -82,19 +82,40 @@ func checkC11(c *Ctx) {
 	// ---------------- R1 dispatch table
 	got := map[int64]string{}
 	var dispatcher *ssa.Function
-	for _, f := range p.Methods(gt) {
+	// the table may be built where it is used or once, by the constructor, into a field: any function of the
+	// hand's package that maps a game-event constant to a bound method of the hand contributes entries; the
+	// dispatcher is the function that looks an entry up and calls it
+	var builder *ssa.Function
+	for _, f := range p.Funcs {
+		if !inModule(p, f) || f.Pkg == nil || f.Pkg.Pkg != gt.Obj().Pkg() {
+			continue
+		}
 		for _, b := range f.Blocks {
 			for _, in := range b.Instrs {
 				if mu, ok := in.(*ssa.MapUpdate); ok {
-					if k, isK := p.Sym(mu.Key).ConstInt(); isK {
+					if k, isK := p.Sym(mu.Key).ConstInt(); isK && strings.HasSuffix(typeShort(mu.Key.Type()), "GameEvent") {
 						if tgt := boundMethodTarget(mu.Value); tgt != nil {
 							got[k] = role[tgt]
-							dispatcher = f
+							builder = f
 						}
 					}
 				}
 			}
 		}
+	}
+	for _, f := range p.Methods(gt) {
+		for _, ci := range Calls(f) {
+			cm := ci.Common()
+			if !cm.IsInvoke() && cm.StaticCallee() == nil {
+				s := p.Sym(cm.Value).Strip()
+				if s.Kind == "extract" && s.Args[0].Strip().Kind == "lookup" && strings.HasSuffix(typeShort(s.Args[0].Strip().Args[1].V.Type()), "GameEvent") {
+					dispatcher = f
+				}
+			}
+		}
+	}
+	if dispatcher == nil {
+		dispatcher = builder
 	}
 	for ev, r := range want {
 		k := gameEventConst(p, ev)
@@ -114,6 +135,28 @@ func checkC11(c *Ctx) {
 			}
 		}
 		c.Check(okCall, "R1", "dispatch:invoked", p.Pos(dispatcher.Pos()), "looked-up handler is invoked", "the dispatcher looks the handler up but does not call it")
+		// … whenever there is one: nothing but "the event is known" and "the table has an entry" stands between
+		// an incoming state and its handler (a further condition — 'this request was seen before' — skips the
+		// step that arms the ready group, and the hand waits for answers nobody is asked for)
+		for _, ci := range Calls(dispatcher) {
+			cm := ci.Common()
+			if cm.IsInvoke() || cm.StaticCallee() != nil {
+				continue
+			}
+			s := p.Sym(cm.Value).Strip()
+			if !(s.Kind == "extract" && s.Args[0].Strip().Kind == "lookup") {
+				continue
+			}
+			extra := ""
+			for _, g := range p.Guards(ci) {
+				cs := g.Cond.Strip()
+				if cs.Kind == "extract" && cs.Args[0].Strip().Kind == "lookup" {
+					continue // comma-ok of a table look-up
+				}
+				extra = g.String()
+			}
+			c.Check(extra == "", "R1", "dispatch:unconditional", p.InstrPos(ci), "handler called whenever the event is known and has an entry", "the dispatcher calls the handler only when "+extra+" also holds: a state whose handler is skipped is never acted upon")
+		}
 	}
 
 	// ---------------- R2 / R3 / R4
